@@ -72,11 +72,46 @@ def solve(inst):
         return dict(ok=False, exc=repr(ex)[:200])
 
 
+def solve_animals(inst):
+    """the feed-maximising round on a small instance: pinned human consumption, ceilings, non-rising feed / biofuel"""
+    from harness.run_rec import lp_obs
+    from src.food_system.food import Food
+    from src.optimizer.optimizer import Optimizer
+
+    c, t = mk(inst)
+    N = inst["n"]
+    need = float(inst["need"])
+
+    def F(k):
+        return Food(kcals=np.array(k, dtype=float), fat=np.zeros(N), protein=np.zeros(N), kcals_units="billion kcals each month",
+                    fat_units="thousand tons each month", protein_units="thousand tons each month")
+
+    def pin(k):  # billion kcals each month -> kcals per person per day each month (the unit the hand-off uses)
+        return Food(kcals=np.array(k, dtype=float) / need * 2100.0, fat=np.zeros(N), protein=np.zeros(N),
+                    kcals_units="kcals per person per day each month", fat_units="effective kcals per person per day each month",
+                    protein_units="effective kcals per person per day each month")
+
+    t["max_feed_that_could_be_used"] = F(inst["maxF"])
+    t["max_biofuel_that_could_be_used"] = F(inst["maxB"])
+    z = [0.0] * N
+    min_cons = dict(outdoor_crops=pin(inst["hCrop"]), stored_food=pin(inst["hSf"]), meat=pin(inst.get("hMeat", z)), methane_scp=pin(z),
+                    cellulosic_sugar=pin(z), seaweed=pin(z))
+    o = Optimizer(c, t)
+    try:
+        with contextlib.redirect_stdout(io.StringIO()):
+            model, v, mc, zz = o.optimize_feed_to_animals(c, t, min_cons)
+        ob = lp_obs(o, "A", v, zz, min_cons)
+        ob["round"] = 2
+        return dict(ok=True, z=float(zz), lp=ob)
+    except BaseException as ex:  # noqa
+        return dict(ok=False, exc=repr(ex)[:200])
+
+
 def main():
     insts = json.load(open(sys.argv[1]))
     out = []
     for inst in insts:
-        r = solve(inst)
+        r = solve_animals(inst) if inst.get("mode") == "animals" else solve(inst)
         r["inst"] = inst
         out.append(r)
     json.dump(out, open(sys.argv[2], "w"))
